@@ -490,6 +490,9 @@ Proof.
     rewrite <- app_assoc. reflexivity.
 Qed.
 
+Lemma map_repeat' {A B} (f : A -> B) x n : map f (repeat x n) = repeat (f x) n.
+Proof. induction n; simpl; [reflexivity|rewrite IHn; reflexivity]. Qed.
+
 Lemma fold_repeat_len (b : bytes) n :
   fold_right (fun b acc => field_len (zlen b) + acc) 0 (repeat b n) = Z.of_nat n * field_len (zlen b).
 Proof. induction n; simpl repeat; simpl fold_right; [lia|]. rewrite IHn. lia. Qed.
@@ -568,23 +571,148 @@ Proof.
   pose proof (field_len_pos (zlen c) (zlen_nonneg c)) as Hfc.
   assert (Hfi : field_len 32 = 36) by reflexivity.
   assert (Hpz : Z.of_nat p = Z.max 0 (num_placeholders level 32 (zlen c))) by (unfold p; lia).
+  rewrite <- Hpz, Z.mul_add_distr_r, Z.mul_1_l in Hfit.
   unfold encode_packet. cbn [p_cookies p_placeholders p_uid p_key p_plain]. rewrite Hh. change (negb (48 =? ntpPacketLen)) with false. cbv iota.
   unfold pack_uid. rewrite Hi. change (32 <? 32) with false. cbv iota.
   rewrite pack_field_ok by (rewrite Hh, Hi, Hfi; unfold MaxPacketLen; lia). cbn [obind].
-  rewrite pack_fields_ok by (simpl fold_right; rewrite zlen_app, enc_field_len, Hh, Hi, Hfi; unfold MaxPacketLen in *; nia).
+  rewrite pack_fields_ok by (cbn [fold_right]; rewrite zlen_app, enc_field_len, Hh, Hi, Hfi; unfold MaxPacketLen in *; lia).
   cbn [obind].
   rewrite pack_fields_ok.
   2:{ rewrite fold_repeat_len, zlen_repeat. fold (zlen c).
-      simpl map. simpl concat. rewrite !zlen_app, !enc_field_len, Hh, Hi, Hfi. change (zlen []) with 0.
-      unfold MaxPacketLen in *. nia. }
+      cbn [map concat]. rewrite !zlen_app, !enc_field_len, Hh, Hi, Hfi. change (zlen []) with 0.
+      unfold MaxPacketLen in *. lia. }
   cbn [obind].
   rewrite pack_auth_ok; try assumption; [|reflexivity|].
-  - unfold request_wire. cbv zeta. simpl map. simpl concat. rewrite app_nil_r, map_repeat, <- !app_assoc. reflexivity.
-  - simpl map. simpl concat. rewrite app_nil_r, map_repeat, !zlen_app, !enc_field_len, Hh, Hi, Hfi.
+  - unfold request_wire. cbv zeta. cbn [map concat]. rewrite app_nil_r, map_repeat', <- !app_assoc. reflexivity.
+  - cbn [map concat]. rewrite app_nil_r, map_repeat', !zlen_app, !enc_field_len, Hh, Hi, Hfi.
     assert (Hc : zlen (concat (repeat (enc_field extCookiePlaceholder (repeat 0 (length c))) p))
                  = Z.of_nat p * field_len (zlen c)).
     { clear. induction p; cbn [repeat concat]; [reflexivity|].
       rewrite zlen_app, IHp, enc_field_len, zlen_repeat. fold (zlen c). lia. }
-    rewrite Hc. unfold auth_len. change (zlen []) with 0. unfold MaxPacketLen in *. nia.
+    rewrite Hc. unfold auth_len. change (zlen []) with 0. unfold MaxPacketLen in *. lia.
 Qed.
 End Enc.
+
+
+(* ---- replies ---- *)
+Lemma enc_field_aligned t body : zlen body mod 4 = 0 ->
+  enc_field t body = be16 t ++ be16 (4 + zlen body) ++ body.
+Proof.
+  intros H. unfold enc_field. rewrite (pad4_mult4 _ H), Z.sub_diag. simpl repeat. rewrite app_nil_r. reflexivity.
+Qed.
+
+Lemma pack_cookies_n_ok L : L mod 4 = 0 -> 0 <= L <= 1024 ->
+  forall cs out lim, Forall (fun c => zlen c = L) cs ->
+  zlen out + zlen cs * (4 + L) <= lim ->
+  pack_cookies_n lim out cs = Ok (out ++ concat (map (enc_field extCookie) cs)).
+Proof.
+  intros H4 HL. induction cs as [|c r IH]; intros out lim Hall Hfit; cbn [pack_cookies_n map concat].
+  - rewrite app_nil_r. reflexivity.
+  - apply Forall_cons_iff in Hall as [Hc Hr].
+    assert (Hz : zlen (c :: r) = 1 + zlen r) by (unfold zlen; cbn [length]; lia). rewrite Hz in Hfit.
+    pose proof (zlen_nonneg r). pose proof (zlen_nonneg out).
+    assert (Hnn : 0 <= zlen r * (4 + L)) by (apply Z.mul_nonneg_nonneg; lia).
+    rewrite Z.mul_add_distr_r, Z.mul_1_l in Hfit.
+    rewrite Hc, (pad4_mult4 _ H4).
+    unfold pack_hdr_n. destruct (_ <=? _) eqn:E; [|lia]. cbn [obind].
+    assert (Eu : u16 (4 + u16 L) = 4 + L).
+    { unfold u16. rewrite (Z.mod_small L) by lia. apply Z.mod_small. lia. }
+    rewrite Eu, Z.sub_diag. simpl repeat.
+    unfold copy_to_n at 2. rewrite firstn_all2.
+    2:{ rewrite !zlen_app, !zlen_be16. unfold zlen in *. lia. }
+    unfold copy_to_n. cbn [firstn]. rewrite firstn_nil, app_nil_r.
+    rewrite IH; [|exact Hr|rewrite !zlen_app, !zlen_be16; lia].
+    rewrite (enc_field_aligned extCookie c) by (rewrite Hc; exact H4). rewrite Hc, <- !app_assoc. reflexivity.
+Qed.
+
+Lemma cap_cookies_spec idLen c0 r :
+  let cs := c0 :: r in
+  let k := reply_count (zlen cs) idLen (zlen c0) in
+  cap_cookies idLen cs = firstn (Z.to_nat k) cs /\ zlen (cap_cookies idLen cs) = k.
+Proof.
+  intros cs k. unfold k, cap_cookies, reply_count, cs.
+  destruct (_ && _) eqn:E.
+  - apply andb_prop in E as [E1 E2]. split; [reflexivity|].
+    unfold zlen in *. rewrite firstn_length. lia.
+  - split; [|reflexivity]. rewrite firstn_all2; [reflexivity|]. unfold zlen. lia.
+Qed.
+
+Lemma Forall_firstn {A} (P : A -> Prop) n l : Forall P l -> Forall P (firstn n l).
+Proof. revert n. induction l; intros [|n] H; simpl; try constructor; inversion H; subst; auto. Qed.
+
+Section Reply.
+Variable seal : bytes -> bytes -> bytes -> bytes -> bytes.
+Hypothesis seal_len : forall k n p a, zlen (seal k n p a) = zlen p + 16.
+
+Definition reply_wire (hdr uid nonce key : bytes) (cookies : list bytes) : bytes :=
+  let pre := hdr ++ enc_field extUniqueIdentifier uid in
+  pre ++ enc_auth nonce (seal key nonce (concat (map (enc_field extCookie) cookies)) pre).
+
+(* the reply to a request that asked for [zlen cs] cookies, the server having made the cookies cs *)
+Theorem reply_encoding hdr uid c0 r ks2c nonce L :
+  let cs := c0 :: r in
+  zlen hdr = 48 -> 32 <= zlen uid -> key_ok ks2c = true -> zlen nonce = 16 ->
+  Forall (fun c => zlen c = L) cs -> L mod 4 = 0 -> 0 <= L ->
+  1 <= max_cookies (zlen uid) L ->
+  let k := reply_count (zlen cs) (zlen uid) L in
+  let sent := firstn (Z.to_nat k) cs in
+  exists pkt, new_response cs ks2c uid = Ok pkt /\
+    encode_packet seal hdr pkt nonce = Ok (reply_wire hdr uid nonce ks2c sent) /\
+    zlen sent = k /\
+    zlen (reply_wire hdr uid nonce ks2c sent) = reply_len k (zlen uid) L /\
+    reply_len k (zlen uid) L <= MaxPacketLen.
+Proof.
+  intros cs Hh Hu Hk Hn Hall H4 HL0 Hm k sent.
+  assert (Hc0 : zlen c0 = L) by (inversion Hall; assumption).
+  pose proof (cap_cookies_spec (zlen uid) c0 r) as [Hcap Hcaplen]. cbv zeta in Hcap, Hcaplen.
+  rewrite Hc0 in Hcap, Hcaplen. fold cs in Hcap, Hcaplen. fold k in Hcap, Hcaplen. fold sent in Hcap.
+  assert (Hcs1 : 1 <= zlen cs) by (unfold cs, zlen; cbn [length]; lia).
+  pose proof (reply_count_bounds (zlen cs) (zlen uid) L Hcs1) as Hkb. fold k in Hkb.
+  pose proof (reply_fits (zlen uid) L (zlen cs) HL0 Hm Hcs1) as Hfit. fold k in Hfit.
+  pose proof (max_cookies_fit (zlen uid) L HL0 Hm) as Hmf.
+  pose proof (reply_count_fit (zlen cs) (zlen uid) L HL0 Hcs1 Hm) as Hkm. fold k in Hkm.
+  assert (HL : 0 <= L <= 1024).
+  { unfold field_len, MaxPacketLen, ntpPacketLen in Hmf. pose proof (pad4_spec (zlen uid) ltac:(lia)).
+    rewrite (pad4_mult4 _ H4) in Hmf. nia. }
+  assert (Hsent : zlen sent = k) by (rewrite <- Hcap; exact Hcaplen).
+  assert (Hallsent : Forall (fun c => zlen c = L) sent) by (apply Forall_firstn; exact Hall).
+  assert (Hplain : zlen (concat (map (enc_field extCookie) sent)) = k * field_len L).
+  { rewrite <- Hsent. clear - Hallsent H4. induction Hallsent as [|c l Hc Hl IH]; cbn [map concat]; [reflexivity|].
+    rewrite zlen_app, IH, enc_field_len, Hc. unfold zlen. cbn [length]. lia. }
+  assert (Hfl : field_len L = 4 + L) by (unfold field_len; rewrite (pad4_mult4 _ H4); reflexivity).
+  exists {| p_uid := uid; p_cookies := []; p_placeholders := []; p_key := ks2c;
+            p_plain := concat (map (enc_field extCookie) sent) |}.
+  split.
+  { assert (Hsent' : @zlen bytes sent = k) by exact Hsent.
+    unfold new_response, cs. fold cs. rewrite Hcap, Hc0, Hsent'.
+    rewrite (pack_cookies_n_ok L H4 HL sent [] (k * (4 + L)) Hallsent) by (rewrite Hsent; change (zlen []) with 0; lia).
+    cbn [obind app]. rewrite Hplain, Hfl, Z.sub_diag. simpl repeat. rewrite app_nil_r. reflexivity. }
+  assert (Hwl : zlen (reply_wire hdr uid nonce ks2c sent) = reply_len k (zlen uid) L).
+  { unfold reply_wire. cbv zeta. rewrite !zlen_app, (enc_auth_len seal seal_len), seal_len, enc_field_len, Hplain, Hh by exact Hn.
+    unfold reply_len, auth_len, ntpPacketLen. lia. }
+  split; [|split; [exact Hsent|split; [exact Hwl|exact Hfit]]].
+  unfold reply_len, auth_len, ntpPacketLen, MaxPacketLen in Hfit.
+  pose proof (field_len_pos (zlen uid) ltac:(lia)).
+  unfold encode_packet. cbn [p_cookies p_placeholders p_uid p_key p_plain]. rewrite Hh.
+  change (negb (48 =? ntpPacketLen)) with false. cbv iota.
+  unfold pack_uid. destruct (zlen uid <? 32) eqn:E; [lia|].
+  rewrite pack_field_ok by (rewrite Hh; unfold MaxPacketLen; nia). cbn [obind pack_fields].
+  rewrite (pack_auth_ok seal seal_len); try assumption.
+  - unfold reply_wire. cbv zeta. rewrite <- !app_assoc. reflexivity.
+  - rewrite Hplain, Hfl. assert (HLq : L = 4 * (L / 4)) by lia. rewrite HLq.
+    replace (k * (4 + 4 * (L / 4))) with ((k * (1 + L / 4)) * 4) by ring. apply Z_mod_mult.
+  - rewrite zlen_app, enc_field_len, Hh, Hplain. unfold auth_len, MaxPacketLen. lia.
+Qed.
+
+(* the requester can authenticate it: under the correctness of AES-SIV the
+   ciphertext opens, with the bytes before the authenticator as associated data,
+   to the cookie fields *)
+Variable open : bytes -> bytes -> bytes -> bytes -> option bytes.
+Hypothesis open_seal : forall k n p a, open k n (seal k n p a) a = Some p.
+
+Theorem reply_opens hdr uid nonce ks2c sent :
+  let pre := hdr ++ enc_field extUniqueIdentifier uid in
+  exists ct, reply_wire hdr uid nonce ks2c sent = pre ++ enc_auth nonce ct /\
+             open ks2c nonce ct pre = Some (concat (map (enc_field extCookie) sent)).
+Proof. intros pre. eexists. split; [reflexivity|apply open_seal]. Qed.
+End Reply.
